@@ -14,10 +14,10 @@ PROGRAMS = [
     ("close-vs-loop-pong-and-ping", {"compress": False, "threads": {"A": [["close"]], "L": [["loop_pong", [1]], ["loop_autoping"]], "B": [["send_text", "B1"]]}}),
 ]
 BQ = {name: 1 for name, _ in PROGRAMS}
-BT = {"close-then-abandon-vs-send": 2, "empty-close-vs-send": 2, "empty-close-echo-vs-close-and-send": 1, "close-vs-send": 2, "close-vs-close": 2, "close-vs-compressed-send": 2, "close-vs-loop-echo": 1, "close-vs-loop-pong-and-ping": 1}
+BT = {"close-then-abandon-vs-send": 1, "empty-close-vs-send": 1, "empty-close-echo-vs-close-and-send": 1, "close-vs-send": 2, "close-vs-close": 2, "close-vs-compressed-send": 2, "close-vs-loop-echo": 1, "close-vs-loop-pong-and-ping": 1}
 RULE = ('every schedule with at most 1-2 pre-emptions (line granularity, stateless exhaustive search) of 8 thread programs built around close() (with and without a status code): close() against '
         'send_text/send_binary/send_ping, against another close(), against the loop echoing a server Close, answering a Ping and sending an automatic Ping; every '
-        'sendall split in two steps; every schedule with one pre-emption at OPCODE granularity for the two-thread programs; thorough adds 6000 random opcode-granular schedules; non-trivial = distinct (program, wire order, call results)')
+        'sendall split in two steps; every schedule with one pre-emption at OPCODE granularity for the two-thread programs; thorough adds 3000 random opcode-granular schedules; non-trivial = distinct (program, wire order, call results)')
 
 
 def run(tier, seed):
